@@ -982,6 +982,72 @@ def sequence_check(run, info, defaults):
     run.count("sequence_calls", n)
 
 
+def destination_check(run, info):
+    """where and into what the generators write (the artefact must not depend on it):
+       (a) a RELATIVE destination directory gives the same files as an absolute one (every set of a multi-set call
+           lands in the requested directory);
+       (b) generating into a directory that already holds an earlier result gives what a fresh directory gets:
+           more sets than before, and the same set again with an option that only affects the header."""
+    import cyecca.codegen as generic
+    base = os.path.join(G["scratch"], "dest")
+    os.makedirs(base, exist_ok=True)
+
+    def same(key, what, got_dir, fresh_dir, data):
+        got, fresh = _snapshot(got_dir) if os.path.isdir(got_dir) else {}, _snapshot(fresh_dir)
+        run.count("destination_comparisons")
+        miss = sorted(f for f in fresh if f not in got)
+        diff = sorted(f for f in fresh if f in got and got[f] != fresh[f])
+        if miss or diff:
+            run.violation(key, what + f" (missing: {miss[:6]}, different: {diff[:6]})", {**data, "kind": "main", "files": sorted(got), "files_fresh": sorted(fresh)})
+    calls = {"attitude": info["estimator"]["call"], "rdd2": info["rdd2"]["call"], "rdd2_loglinear": info["rdd2_loglinear"]["call"],
+             "bezier": info["bezier"]["call"],
+             "generic": lambda d, **o: generic.generate_code({s: dict(info[s]["funcs"]) for s in ("rdd2_loglinear", "bezier", "mr_ref_traj")}, d, **o)}
+    first_set = {"attitude": "estimator", "generic": "rdd2_loglinear"}
+    cwd = os.getcwd()
+    for g_, call in calls.items():
+        s = first_set.get(g_, g_)
+        fresh = os.path.join(base, "abs_" + g_); os.makedirs(fresh)
+        try:
+            with quiet():
+                call(fresh)
+        except Exception:       # noqa: judged by the row checks
+            continue
+        rel_root = os.path.join(base, "cwd_" + g_); os.makedirs(rel_root)
+        try:
+            os.chdir(rel_root)
+            with quiet():
+                call("code")
+        except Exception as ex:     # noqa
+            run.violation(f"{s}/generate/raises/relative_dest_dir", f"{type(ex).__name__}: {ex}", {"kind": "main", "set": s})
+            continue
+        finally:
+            os.chdir(cwd)
+        same(f"{s}/generate/relative_dest_dir", "with a relative destination directory not every file of the call lands in that directory",
+             os.path.join(rel_root, "code"), fresh, {"set": s, "generator": g_})
+    # (b) regeneration into a used directory, generic entry point
+    try:
+        d = os.path.join(base, "regen"); os.makedirs(d)
+        fresh = os.path.join(base, "regen_fresh"); os.makedirs(fresh)
+        three = {s: dict(info[s]["funcs"]) for s in ("bezier", "rdd2_loglinear", "mr_ref_traj")}
+        with quiet():
+            generic.generate_code({"bezier": three["bezier"]}, d)
+            generic.generate_code(three, d)
+            generic.generate_code(three, fresh)
+        same("rdd2_loglinear/generate/into_used_directory", "generating three sets into a directory that already held the first one does not give what a "
+             "fresh directory gets", d, fresh, {"set": "rdd2_loglinear"})
+        d2 = os.path.join(base, "regen_hdr"); os.makedirs(d2)
+        fresh2 = os.path.join(base, "regen_hdr_fresh"); os.makedirs(fresh2)
+        with quiet():
+            generic.generate_code({"bezier": three["bezier"]}, d2, with_header=False)
+            generic.generate_code({"bezier": three["bezier"]}, d2)
+            generic.generate_code({"bezier": three["bezier"]}, fresh2)
+        same("bezier/generate/into_used_directory/with_header", "generating with default options into a directory written before with with_header=False does "
+             "not give what a fresh directory gets", d2, fresh2, {"set": "bezier"})
+    except Exception as ex:     # noqa
+        run.violation("bezier/generate/raises/into_used_directory", f"{type(ex).__name__}: {ex}", {"kind": "main", "set": "bezier"})
+    shutil.rmtree(base, ignore_errors=True)
+
+
 def main():
     tier = sys.argv[1] if len(sys.argv) > 1 else "quick"
     run = Run(PID, tier, level="translation_validation")
@@ -996,6 +1062,7 @@ def main():
             return replay(run, info, rp)
         print("replay: findings about the shipped entry points are re-evaluated by the full check")
     sequence_check(run, info, defaults)
+    destination_check(run, info)
 
     # ---- TLC on the configuration model, instantiated with the repository's export lists
     mc = write_mc(info, defaults, run.workdir)
